@@ -149,7 +149,7 @@ LEMMAS = [
     dict(name='L3_assign_binned', fn='_l3_assign', engine='E1', timeout=_T, replay='replay.C10:replay',
          cases={'quick': [dict(id='b%d' % b, pre=['b == %d' % b]) for b in (1, 2, 3, 4)]}),
     dict(name='L4_two_files_contig_lengths', fn='_l4_two_files', engine='E1', timeout=_T, replay='replay.C10:replay_two_files',
-         cases={'quick': [dict(id='b%d_s%d' % (b, s_), pre=['b == %d' % b, 's == %d' % s_, 'LA <= 5', 'LB <= 5', 'pa <= 5', 'pb <= 5']) for b in (1, 2, 3) for s_ in range(1, b + 1)]}),
+         cases={'quick': [dict(id='b%d_s%d_%s' % (b, s_, 'ab' if o else 'ba'), pre=['b == %d' % b, 's == %d' % s_, 'order == %s' % bool(o), 'LA <= 5', 'LB <= 5', 'pa <= 5', 'pb <= 5']) for b in (1, 2, 3) for s_ in range(1, b + 1) for o in (1, 0)]}),
 ]
 
 PROPERTY = dict(
